@@ -407,6 +407,160 @@ theorem C04_history_sync_durable (dir : String) (cfg cfg' : Cfg) (hcfg : cfg.Val
     rw [e1] at hdb'; cases hdb'
     exact e5
 
+/-! ## composition: histories separated by crashes and restarts -/
+
+/-- a quiescent database state: an open handle on `dir` with configuration `cfg` and no batch
+    object that satisfies the engine invariant (`Inv`) for a ghost directory denoting the units `U`
+    — so its mapping is `specOfUnits U` (`Good.abs`) — and the durability invariant; all batch ids
+    in its files are among `used`. -/
+structure Good (s : St) (dir : String) (cfg : Cfg) (U : List MUnit) (used : List Nat) : Prop where
+  ex : ∃ db g, s.db = some db ∧ db.dir = dir ∧ db.cfg = cfg ∧ Inv s db g ∧ DInv s db ∧
+    unitsOfLog (logOf g) = U ∧ ∀ x ∈ logOf g, x.1.batch ≠ 0 → x.1.batch ∈ used
+
+/-- the mapping of a quiescent state is the mapping of its units -/
+theorem Good.abs {s : St} {dir : String} {cfg : Cfg} {U : List MUnit} {used : List Nat}
+    (h : Good s dir cfg U used) : ∃ db, s.db = some db ∧ ∀ k, absGet s db k = specOfUnits U k := by
+  obtain ⟨db, g, h1, _, _, h4, _, h6, _⟩ := h.ex
+  exact ⟨db, h1, fun k => by rw [absGet_units h4.files h4.index k, h6]⟩
+
+/-- the freshly opened database is quiescent, with no units and no batch ids -/
+theorem Good_fresh (dir : String) (cfg : Cfg) (hcfg : cfg.Valid) : Good (openDB St.init dir cfg).1 dir cfg [] [] := by
+  obtain ⟨e0, e1, _, e3, e4, _⟩ := fresh_start dir cfg hcfg
+  rw [e0]
+  exact ⟨freshDB dir cfg, [(0, [])], e1, rfl, rfl, Inv_fresh dir cfg, e3, e4, by intro x hx; simp [logOf] at hx⟩
+
+/-- **one epoch: a history, then a crash, then `Open`.**  From a quiescent state with units `U₀`:
+    any history (size side conditions; batch ids non-zero and not abandoned, all ids `used` so far
+    counting as abandoned), any crash image of the state reached whose flush marks are sane, any
+    valid new configuration: `Open` succeeds and the recovered state is quiescent again, with units
+    `(U₀ ++ unitsOf s₀ ops).take j` — (a) everything if no byte was lost, (b) at least the durable
+    units — and `used` extended by the ids of the history.  So the theorem applies again. -/
+theorem C03_history_epoch {s₀ : St} {dir : String} {cfg : Cfg} {U₀ : List MUnit} {used : List Nat}
+    (hg : Good s₀ dir cfg U₀ used) (ops : List AOp) (hok : ∀ op ∈ ops, AOpOK op)
+    (hids : IdsOK s₀ ⟨[], [], used⟩ ops) (cfg' : Cfg) (hcfg' : cfg'.Valid)
+    (sc : St) (d dc : DirSt) (hcr : Crashed (arun s₀ ops) sc dir d dc) (hm : SaneMarks dc.data) :
+    ∃ j, (openDB sc dir cfg').2 = .ok ∧ j ≤ (U₀ ++ unitsOf s₀ ops).length ∧
+      Good (openDB sc dir cfg').1 dir cfg' ((U₀ ++ unitsOf s₀ ops).take j) (bnewIds ops ++ used) ∧
+      (NoByteLost d dc → j = (U₀ ++ unitsOf s₀ ops).length) ∧
+      (∀ n, Durable (arun s₀ ops) n → n ≤ j) ∧
+      (openDB sc dir cfg').1.world.get (mergeDirName dir) = none := by
+  obtain ⟨db₀, g₀, h1, h2, h3, h4, h5, h6, h7⟩ := hg.ex
+  subst h2 h3 h6
+  obtain ⟨L, h, hr, hu⟩ := history_state s₀ db₀ g₀ ops used used h1 h4.files h4.nobatch h5
+    (orphanIds_sub h7) h7 hok hids
+  obtain ⟨s', db', g', j, c1, c2, c3, c4, c5, _, c7, c8, c9, c10, c11, c12, c13⟩ :=
+    crash_of_RunInv hr sc cfg' d dc hcr.before hcr.nodb hcr.after hcr.unlocked hcr.image hcr.nomerge hcfg'
+  rw [hu] at c4 c5 c7
+  rw [c1]
+  exact ⟨j, rfl, c5, ⟨db', g', c2, c9, c10, c3, c11 hm, c4, c12⟩, c7, c8, c13⟩
+
+/-- `Close` is a crash without any loss: the state after `Close` is a crash state of `s` in which
+    no byte was lost and all flush marks are sane -/
+theorem crashed_close {s : St} {db : DB} {d : DirSt} (hs : s.db = some db) (hd : s.world.get db.dir = some d)
+    (hle : ∀ x ∈ d.data, x.2.synced ≤ x.2.bytes.size)
+    (hnm : s.world.get (mergeDirName db.dir) = none) :
+    Crashed s (close s).1 db.dir d { d with data := syncAll d.data, locked := false } ∧
+    NoByteLost d { d with data := syncAll d.data, locked := false } ∧
+    SaneMarks (syncAll d.data) := by
+  rw [close_eq s db d hs hd]
+  have himg : ∀ data : List (Nat × FileSt), (∀ x ∈ data, x.2.synced ≤ x.2.bytes.size) →
+      CrashImage data (syncAll data) := by
+    intro data
+    induction data with
+    | nil => intro _; trivial
+    | cons x t ih =>
+      intro h
+      obtain ⟨i, f⟩ := x
+      exact ⟨rfl, ⟨f.bytes.size, h (i, f) (by simp), Nat.le_refl _, (extract_all _ _ (Nat.le_refl _)).symm⟩,
+        ih (fun y hy => h y (by simp [hy]))⟩
+  refine ⟨⟨hd, rfl, World.get_set_self _ _ _, rfl, himg d.data hle, ?_⟩, ?_, ?_, ?_⟩
+  · rw [World.get_set_ne _ _ _ _ (Restart.mergeDirName_ne _)]; exact hnm
+  · show (syncAll d.data).map _ = d.data.map _
+    unfold syncAll
+    rw [List.map_map]
+    apply List.map_congr_left
+    intro x _; rfl
+  · intro x hx
+    exact (mem_syncAll (List.dropLast_subset _ hx)).2
+  · intro x hx
+    rw [(mem_syncAll hx).2]; exact Nat.le_refl _
+
+/-- **one epoch ending with a clean restart** (`Close`, then `Open`): from a quiescent state, any
+    history — it may end with a batch open, partly flushed, or abandoned, which `C02_restart` does
+    not cover —, then `Close` and `Open` under any valid configuration: the state is quiescent again
+    and its units are ALL acknowledged units; nothing of an uncommitted batch is visible. -/
+theorem C03_history_clean_restart {s₀ : St} {dir : String} {cfg : Cfg} {U₀ : List MUnit} {used : List Nat}
+    (hg : Good s₀ dir cfg U₀ used) (ops : List AOp) (hok : ∀ op ∈ ops, AOpOK op)
+    (hids : IdsOK s₀ ⟨[], [], used⟩ ops) (cfg' : Cfg) (hcfg' : cfg'.Valid)
+    (hnm : (arun s₀ ops).world.get (mergeDirName dir) = none) :
+    (openDB (close (arun s₀ ops)).1 dir cfg').2 = .ok ∧
+    Good (openDB (close (arun s₀ ops)).1 dir cfg').1 dir cfg' (U₀ ++ unitsOf s₀ ops) (bnewIds ops ++ used) := by
+  obtain ⟨db₀, g₀, h1, h2, h3, h4, h5, h6, h7⟩ := hg.ex
+  obtain ⟨db, hs, hd, _, hdir⟩ := DurC_arun ops ⟨db₀, h1, h5, h3, h2⟩
+  subst hdir
+  obtain ⟨pre, f, hdata, _⟩ := hd.shape
+  cases hw : (arun s₀ ops).world.get db.dir with
+  | none => simp [dirOf, hw, DirSt.empty] at hdata
+  | some d =>
+    have hle : ∀ x ∈ d.data, x.2.synced ≤ x.2.bytes.size := by
+      have := hd.le
+      rwa [dirOf_eq hw] at this
+    obtain ⟨hcr, hnl, hsm⟩ := crashed_close hs hw hle hnm
+    obtain ⟨j, e1, _, e3, e4, _, _⟩ := C03_history_epoch hg ops hok hids cfg' hcfg' _ d _ hcr hsm
+    rw [e4 hnl, List.take_length] at e3
+    exact ⟨e1, e3⟩
+
+/-- epochs: each is a history followed by a crash (`sc`, directories `d` / `dc` before / after)
+    and `Open` under `cfg'` -/
+structure Epoch where
+  ops : List AOp
+  sc : St
+  d : DirSt
+  dc : DirSt
+  cfg' : Cfg
+
+/-- the state after a list of epochs -/
+def erun (dir : String) (s : St) : List Epoch → St
+  | [] => s
+  | e :: es => erun dir (openDB e.sc dir e.cfg').1 es
+
+/-- the hypotheses of every epoch (`used` = the batch ids handed out before it) -/
+def EpochsOK (dir : String) : St → List Nat → List Epoch → Prop
+  | _, _, [] => True
+  | s, used, e :: es =>
+    (∀ op ∈ e.ops, AOpOK op) ∧ IdsOK s ⟨[], [], used⟩ e.ops ∧ e.cfg'.Valid ∧
+    Crashed (arun s e.ops) e.sc dir e.d e.dc ∧ SaneMarks e.dc.data ∧
+    EpochsOK dir (openDB e.sc dir e.cfg').1 (bnewIds e.ops ++ used) es
+
+/-- `U'` survives the epochs `es` started in state `s` with units `U`: after each epoch, a prefix
+    of (the units before it, then the units of its history) that contains the durable ones and is
+    everything if no byte was lost -/
+inductive Survives (dir : String) : St → List MUnit → List Epoch → List MUnit → Prop
+  | nil (s : St) (U : List MUnit) : Survives dir s U [] U
+  | cons (s : St) (U : List MUnit) (e : Epoch) (es : List Epoch) (U' : List MUnit) (j : Nat)
+      (hj : j ≤ (U ++ unitsOf s e.ops).length)
+      (hall : NoByteLost e.d e.dc → j = (U ++ unitsOf s e.ops).length)
+      (hdur : ∀ n, Durable (arun s e.ops) n → n ≤ j)
+      (rest : Survives dir (openDB e.sc dir e.cfg').1 ((U ++ unitsOf s e.ops).take j) es U') :
+      Survives dir s U (e :: es) U'
+
+/-- **any number of epochs**: from a quiescent state (e.g. the fresh database, `Good_fresh`), after
+    any list of epochs that satisfy the hypotheses, the database is quiescent and its mapping is
+    `specOfUnits U'` for a list `U'` that `Survives` the epochs: every `Open` succeeded, and each
+    crash kept a prefix of the units acknowledged until then. -/
+theorem C03_history_epochs (dir : String) (es : List Epoch) :
+    ∀ {s : St} {cfg : Cfg} {U : List MUnit} {used : List Nat}, Good s dir cfg U used →
+      EpochsOK dir s used es →
+      ∃ U' cfg' used', Survives dir s U es U' ∧ Good (erun dir s es) dir cfg' U' used' := by
+  induction es with
+  | nil => intro s cfg U used hg _; exact ⟨U, cfg, used, .nil s U, hg⟩
+  | cons e es ih =>
+    intro s cfg U used hg hok
+    obtain ⟨o1, o2, o3, o4, o5, o6⟩ := hok
+    obtain ⟨j, _, c2, c3, c4, c5, _⟩ := C03_history_epoch hg e.ops o1 o2 e.cfg' o3 e.sc e.d e.dc o4 o5
+    obtain ⟨U', cfg'', used', r1, r2⟩ := ih c3 o6
+    exact ⟨U', cfg'', used', .cons s U e es U' j c2 c4 c5 r1, r2⟩
+
 /-! ## non-vacuity
 
 The hypotheses of the theorems above are met by EVERY history with the side conditions and a whole
@@ -464,6 +618,75 @@ theorem C03_history_applicable (dir : String) (cfg : Cfg) (hcfg : cfg.Valid) (op
     have := hd.le
     rwa [dirOf_eq hw] at this
 
+/-- the flush marks of the images `cutBy n` are sane whenever the durability invariant held -/
+theorem saneMarks_cutBy (n : Nat) (data : List (Nat × FileSt)) (hold : OnlyLastCut data)
+    (hle : ∀ x ∈ data, x.2.synced ≤ x.2.bytes.size) : SaneMarks (data.map (cutBy n)) := by
+  have hsz : ∀ x ∈ data, ((cutBy n x).2.bytes.size = max x.2.synced (x.2.bytes.size - n)) := by
+    intro x hx
+    show (x.2.bytes.extract 0 _).size = _
+    rw [ByteArray.size_extract]
+    have := hle x hx
+    omega
+  refine ⟨?_, ?_⟩
+  · intro y hy
+    rw [← List.map_dropLast] at hy
+    obtain ⟨x, hx, rfl⟩ := List.mem_map.mp hy
+    have h1 := hold x hx
+    rw [hsz x (List.dropLast_subset _ hx)]
+    show x.2.synced = _
+    omega
+  · intro y hy
+    obtain ⟨x, hx, rfl⟩ := List.mem_map.mp hy
+    rw [hsz x hx]
+    exact Nat.le_max_left _ _
+
+/-- the data directory of `dir` in state `s` -/
+def dirAt (s : St) (dir : String) : DirSt := (s.world.get dir).getD DirSt.empty
+
+/-- the epoch "history `ops` from state `s`, then a crash that loses (up to) the last `n` bytes of
+    every file, then `Open` under `cfg'`" -/
+def crashEpoch (s : St) (dir : String) (ops : List AOp) (n : Nat) (cfg' : Cfg) : Epoch :=
+  { ops := ops, sc := crashOf (arun s ops) dir n, d := dirAt (arun s ops) dir,
+    dc := { dirAt (arun s ops) dir with data := (dirAt (arun s ops) dir).data.map (cutBy n), locked := false },
+    cfg' := cfg' }
+
+/-- the simple freshness condition at a quiescent state: new ids pairwise distinct, non-zero and
+    not used before -/
+theorem idsOK_of_freshIds_good {s : St} {dir : String} {cfg : Cfg} {U : List MUnit} {used : List Nat}
+    (hg : Good s dir cfg U used) (ops : List AOp) (hok : ∀ op ∈ ops, AOpOK op) (hfr : FreshIds ops)
+    (hdis : ∀ i ∈ bnewIds ops, i ∉ used) : IdsOK s ⟨[], [], used⟩ ops := by
+  obtain ⟨db, g, h1, _, _, h4, h5, _, h7⟩ := hg.ex
+  obtain ⟨L, hr⟩ := RunInv_start h1 h4.files h4.nobatch h5 used used (orphanIds_sub h7) h7
+  apply (IdsOK_units ops _ (unitsOfLog (logOf g)) [] used).mp
+  refine IdsOK_of_fresh ops hr hok hfr.1 ?_
+  intro i hi
+  refine ⟨hfr.2 i hi, hdis i hi, fun b hb => ?_⟩
+  rw [batchOf_eq h1, h4.nobatch] at hb
+  cases hb
+
+/-- **the hypotheses of an epoch are satisfiable from every quiescent state**, for every history
+    with the side conditions and every loss `n` -/
+theorem epoch_applicable {s : St} {dir : String} {cfg : Cfg} {U : List MUnit} {used : List Nat}
+    (hg : Good s dir cfg U used) (ops : List AOp) (n : Nat) (cfg' : Cfg) :
+    Crashed (arun s ops) (crashEpoch s dir ops n cfg').sc dir (crashEpoch s dir ops n cfg').d
+      (crashEpoch s dir ops n cfg').dc ∧ SaneMarks (crashEpoch s dir ops n cfg').dc.data := by
+  obtain ⟨db₀, g₀, h1, h2, h3, _, h5, _, _⟩ := hg.ex
+  obtain ⟨db, hs, hd, _, hdir⟩ := DurC_arun ops ⟨db₀, h1, h5, h3, h2⟩
+  subst hdir
+  obtain ⟨pre, f, hdata, _⟩ := hd.shape
+  cases hw : (arun s ops).world.get db.dir with
+  | none => simp [dirOf, hw, DirSt.empty] at hdata
+  | some d =>
+    have hle : ∀ x ∈ d.data, x.2.synced ≤ x.2.bytes.size := by
+      have := hd.le
+      rwa [dirOf_eq hw] at this
+    have hold : OnlyLastCut d.data := by
+      have := hd.older
+      rwa [dirOf_eq hw] at this
+    have e : dirAt (arun s ops) db.dir = d := by simp only [dirAt, hw, Option.getD_some]
+    simp only [crashEpoch, e]
+    exact ⟨crashed_crashOf n hw hle, saneMarks_cutBy n d.data hold hle⟩
+
 instance : (op : AOp) → Decidable (AOpOK op)
   | .put _ _ => by unfold AOpOK; infer_instance
   | .del _ => by unfold AOpOK; infer_instance
@@ -511,6 +734,36 @@ example (m n : Nat) (cfg' : Cfg) (hcfg' : cfg'.Valid) :
     (demoOps.take m) hok (idsOK_of_freshIds "d" demoCfg (by decide) _ hok hfr) _ d _ hcr
   exact ⟨s', db', j, h1, h2, h3, h4⟩
 
+/-- a second history, with a new batch id -/
+def demoOps2 : List AOp :=
+  [.put (K "z") (K "Z"), .bnew true 78, .bput (K "a") (K "9"), .bdel (K "x"), .bcommit, .del (K "z")]
+
+theorem demoOps2_ok : ∀ op ∈ demoOps2, AOpOK op := by decide
+theorem demoOps2_fresh : FreshIds demoOps2 := by decide
+
+/-- the two demo epochs: the first history up to and including `Commit`, a crash that tears the
+    sealing record (13 bytes lost), `Open`; the second history, a crash that loses `n` bytes, `Open` -/
+def demoEpochs (n : Nat) : List Epoch :=
+  [crashEpoch (openDB St.init "d" demoCfg).1 "d" (demoOps.take 9) 13 demoCfg,
+   crashEpoch (openDB (crashOf (arun (openDB St.init "d" demoCfg).1 (demoOps.take 9)) "d" 13) "d" demoCfg).1
+     "d" demoOps2 n demoCfg]
+
+/-- `C03_history_epoch` / `C03_history_epochs` are not vacuous: the two demo epochs satisfy all
+    hypotheses, for every loss `n` in the second crash -/
+example (n : Nat) : ∃ U' cfg' used', Survives "d" (openDB St.init "d" demoCfg).1 [] (demoEpochs n) U' ∧
+    Good (erun "d" (openDB St.init "d" demoCfg).1 (demoEpochs n)) "d" cfg' U' used' := by
+  have hg0 := Good_fresh "d" demoCfg (by decide)
+  have hok1 : ∀ op ∈ demoOps.take 9, AOpOK op := fun op h => demoOps_ok op (List.mem_of_mem_take h)
+  have hfr1 : FreshIds (demoOps.take 9) := by decide
+  have hids1 := idsOK_of_freshIds_good hg0 (demoOps.take 9) hok1 hfr1 (by intro i _; simp)
+  obtain ⟨a1, a2⟩ := epoch_applicable hg0 (demoOps.take 9) 13 demoCfg
+  obtain ⟨j, _, _, hg1, _, _, _⟩ := C03_history_epoch hg0 (demoOps.take 9) hok1 hids1 demoCfg (by decide) _ _ _ a1 a2
+  have hids2 := idsOK_of_freshIds_good hg1 demoOps2 demoOps2_ok demoOps2_fresh (by decide)
+  obtain ⟨b1, b2⟩ := epoch_applicable hg1 demoOps2 n demoCfg
+  exact C03_history_epochs "d" (demoEpochs n) hg0
+    ⟨hok1, hids1, (show demoCfg.Valid by decide), a1, a2, demoOps2_ok, hids2, (show demoCfg.Valid by decide),
+      b1, b2, trivial⟩
+
 /-! ## evaluated sanity checks (compiled evaluation by `#guard`; not used by any proof) -/
 
 private def showU : MUnit → String
@@ -530,7 +783,7 @@ private def absOf (s : St) (k : ByteArray) : Option ByteArray :=
   | some db => absGet s db k
   | none => none
 
-private def demoKeys : List String := ["base", "a", "b", "c", "d", "x", "y"]
+private def demoKeys : List String := ["base", "a", "b", "c", "d", "x", "y", "z"]
 private def dump (s : St) : List (String × String) :=
   demoKeys.filterMap fun k => (absOf s (K k)).map fun v => (k, String.fromUTF8! v)
 private def dumpSpec (m : C01.Spec) : List (String × String) :=
@@ -572,6 +825,19 @@ private def recovered (m n : Nat) : List (String × String) := dump (openDB (cra
 #guard !(IdsOK (openDB St.init "d" demoCfg).1 h0
   (demoOps.take 6 ++ [.bdrop, .bnew false 77]) : Bool)
 
+-- two epochs: the first crash tears the sealing record of batch 77 (its two synced pieces stay on
+-- disk as orphans), the second history commits a Sync batch 78 and deletes `z`
+#guard dump (erun "d" (openDB St.init "d" demoCfg).1 (demoEpochs 0)) == [("base", "B"), ("a", "9")]
+-- … the tombstone of `z` (13 bytes) is not flushed, batch 78 is: after a loss of up to 13 bytes
+#guard [1, 13].all fun n =>
+  dump (erun "d" (openDB St.init "d" demoCfg).1 (demoEpochs n)) == [("base", "B"), ("a", "9"), ("z", "Z")]
+-- … and nothing more can be lost, whatever the crash (the Sync batch flushed everything before it)
+#guard dump (erun "d" (openDB St.init "d" demoCfg).1 (demoEpochs 1000)) == [("base", "B"), ("a", "9"), ("z", "Z")]
+-- the orphaned pieces of batch 77 make its id unusable in the second epoch
+#guard !(IdsOK (openDB (crashOf (demoAt 9) "d" 13) "d" demoCfg).1 ⟨[], [], [77]⟩ [.bnew false 77] : Bool)
+-- a clean restart with a batch open and partly flushed (point 8): all units, nothing of the batch
+#guard dump (openDB (close (demoAt 8)).1 "d" cfg2).1 == [("base", "B"), ("x", "X")]
+
 /-! ## axioms -/
 
 /--
@@ -590,5 +856,13 @@ info: 'XixiKV.C03H.C04_history_atomic' depends on axioms: [propext, Classical.ch
 info: 'XixiKV.C03H.C04_history_sync_durable' depends on axioms: [propext, Classical.choice, Quot.sound]
 -/
 #guard_msgs in #print axioms C04_history_sync_durable
+/--
+info: 'XixiKV.C03H.C03_history_epochs' depends on axioms: [propext, Classical.choice, Quot.sound]
+-/
+#guard_msgs in #print axioms C03_history_epochs
+/--
+info: 'XixiKV.C03H.C03_history_clean_restart' depends on axioms: [propext, Classical.choice, Quot.sound]
+-/
+#guard_msgs in #print axioms C03_history_clean_restart
 
 end XixiKV.C03H
